@@ -13,8 +13,8 @@ ASSUMPTIONS = ["every ground-truth instance has >= 1 visible node and animals ar
                "deleting a prediction removes the instance but keeps its (possibly empty) predicted frame",
                "mean-type ratios that are undefined because there is no matched pair at all (NaN) are not 'reported ratios'"]
 SHARDS = {"quick": 4, "thorough": 16}
-N = {"quick": 360, "thorough": 12000}
-BUDGET = {"quick": 110, "thorough": 1500}
+N = {"quick": 720, "thorough": 144000}
+BUDGET = {"quick": 110, "thorough": 600}
 TIMEOUT = {"quick": 600, "thorough": 3000}
 SELF_SHARDED = True
 KEY_GREEDY = "deleting-a-higher-scored-poorer-competitor-increases-recall"
